@@ -653,7 +653,7 @@ func keyTokenIndex(e *Env, v ssa.Value, depth int) (LE, bool) {
 }
 
 // parserTables: what the ESDT-transfer parser binds to the exported fields, per side.
-func parserTables(c *Ctx, fn *ssa.Function) (map[string]roleTable, []string) {
+func parserTables(c *Ctx, penv *Env) (map[string]roleTable, []string) {
 	tabs := map[string]roleTable{"sender": {}, "destination": {}}
 	var problems []string
 	roleOf := map[string]string{"ESDTTokenName": "token", "ESDTTokenNonce": "number", "ESDTValue": "value", "RcvAddr": "receiver", "CallFunction": "callFunction", "CallArgs": "callArgsFrom"}
@@ -664,7 +664,11 @@ func parserTables(c *Ctx, fn *ssa.Function) (map[string]roleTable, []string) {
 		sndRcv := func(f Fact) bool {
 			return !f.Lin && f.Pos && strings.HasPrefix(f.Atom, "eq(") && strings.Contains(f.Atom, "P:sndAddr") && strings.Contains(f.Atom, "P:rcvAddr")
 		}
+		dead := e.deadBlocks()
 		for _, b := range e.Fn.Blocks {
+			if dead[b] {
+				continue // not executed for this protocol name (a flag of the format the dispatcher passed)
+			}
 			for _, in := range b.Instrs {
 				switch x := in.(type) {
 				case *ssa.Store:
@@ -707,7 +711,11 @@ func parserTables(c *Ctx, fn *ssa.Function) (map[string]roleTable, []string) {
 						case *ssa.Convert:
 							walk(we, y.X, d+1)
 						case *ssa.Phi:
-							for _, ed := range y.Edges {
+							wd := we.deadBlocks()
+							for i, ed := range y.Edges {
+								if wd[y.Block().Preds[i]] {
+									continue // value of a branch that is not taken in this calling context
+								}
 								walk(we, ed, d+1)
 							}
 						case *ssa.Parameter:
@@ -805,7 +813,7 @@ func parserTables(c *Ctx, fn *ssa.Function) (map[string]roleTable, []string) {
 			}
 		}
 	}
-	visit(c.P.Env(fn), 0)
+	visit(penv, 0)
 	if overwrittenOnSender {
 		// sender side: the count first decoded from args[0] is overwritten by the sender-only decode before any use
 		delete(tabs["sender"]["number"], lin3{0, 0, 0}.String())
@@ -900,16 +908,19 @@ func c10r3(c *Ctx) {
 			pfn[fn.Name()] = fn
 		}
 	}
-	for _, g := range []struct{ name, parser string }{{"ESDTTransfer", "parseSingleESDTTransfer"}, {"ESDTNFTTransfer", "parseSingleESDTNFTTransfer"}, {"MultiESDTNFTTransfer", "parseMultiESDTNFTTransfer"}} {
+	_ = pfn
+	for _, g := range []struct{ name string }{{"ESDTTransfer"}, {"ESDTNFTTransfer"}, {"MultiESDTNFTTransfer"}} {
 		r, ok := regs[g.name]
-		pf := pfn[g.parser]
-		if !ok || r.Entry == nil || pf == nil {
-			// the parser dispatches on the protocol name: find the callee by the dispatch instead of its identifier
+		// the parser dispatches on the protocol name: the routine is what the dispatch calls for this name (in that calling
+		// context: a routine shared by two names is judged once per name)
+		penv := parserRoutineFor(c.P, g.name)
+		if !ok || r.Entry == nil || penv == nil {
 			c.Anchor(rule, "parser routine for "+g.name)
 			continue
 		}
+		pf := penv.Fn
 		lt, lp := ledgerTables(c, g.name, r)
-		pt, pp := parserTables(c, pf)
+		pt, pp := parserTables(c, penv)
 		for _, pr := range append(lp, pp...) {
 			c.Fail(rule, "undecided", FuncName(pf), g.name+": role extraction", c.P.Pos(pf.Pos()), pr)
 		}
@@ -1178,4 +1189,63 @@ func argElementLeaf(e *Env, v ssa.Value, argsT string, skipCount bool, depth int
 		}
 	}
 	return ""
+}
+
+
+// parserRoutineFor: the function the ESDT-transfer parser calls when the function name equals the given protocol name — found
+// through the comparison `name == "<protocol name>"` in an exported method of package parsers — as an env below that call.
+func parserRoutineFor(p *Prog, name string) *Env {
+	for _, fn := range p.Funcs {
+		if !p.InPkgs(fn, "parsers") || fn.Signature.Recv() == nil {
+			continue
+		}
+		for _, b := range fn.Blocks {
+			if len(b.Instrs) == 0 || len(b.Succs) != 2 {
+				continue
+			}
+			iff, ok := b.Instrs[len(b.Instrs)-1].(*ssa.If)
+			if !ok {
+				continue
+			}
+			bo, ok := iff.Cond.(*ssa.BinOp)
+			if !ok || bo.Op != token.EQL {
+				continue
+			}
+			isName := false
+			for _, side := range []ssa.Value{bo.X, bo.Y} {
+				if k, ok := side.(*ssa.Const); ok {
+					if sv, ok := constStringVal(k.Value); ok && sv == name {
+						isName = true
+					}
+				}
+			}
+			if !isName {
+				continue
+			}
+			// the first module call with an argument list below the true branch
+			seen := map[*ssa.BasicBlock]bool{}
+			work := []*ssa.BasicBlock{b.Succs[0]}
+			for len(work) > 0 {
+				blk := work[0]
+				work = work[1:]
+				if seen[blk] || !b.Succs[0].Dominates(blk) && blk != b.Succs[0] {
+					continue
+				}
+				seen[blk] = true
+				for _, in := range blk.Instrs {
+					call, ok := in.(*ssa.Call)
+					if !ok || call.Call.StaticCallee() == nil || !p.InPkgs(call.Call.StaticCallee(), "parsers") || len(call.Call.StaticCallee().Blocks) == 0 {
+						continue
+					}
+					for _, a := range call.Call.Args {
+						if a.Type().String() == "[][]byte" {
+							return p.Env(fn).Sub(call, call.Call.StaticCallee())
+						}
+					}
+				}
+				work = append(work, blk.Succs...)
+			}
+		}
+	}
+	return nil
 }
